@@ -221,6 +221,57 @@ fn pair_laws(a: &DataType, b: &DataType, rep: &mut ChunkReport) {
         }
         _ => {}
     }
+    // arithmetic with promotion: when a floating-point operand is involved the result must be the IEEE result
+    // of the two operands converted to f64 (operand ORDER matters for - / %); for two integers whose exact
+    // result is small it must be that exact integer
+    if let (Some(x), Some(y)) = (num_of(a), num_of(b)) {
+        let f = |n: Num| match n {
+            Num::I(i) => i as f64,
+            Num::F(v) => v,
+        };
+        let involves_float = matches!(x, Num::F(_)) || matches!(y, Num::F(_));
+        type Op = (&'static str, fn(&DataType, &DataType) -> Result<DataType, String>, fn(f64, f64) -> f64, fn(i128, i128) -> Option<i128>);
+        let ops: [Op; 5] = [
+            ("+", |p, q| p.add(q).map_err(|e| e.to_string()), |p, q| p + q, |p, q| p.checked_add(q)),
+            ("-", |p, q| p.sub(q).map_err(|e| e.to_string()), |p, q| p - q, |p, q| p.checked_sub(q)),
+            ("*", |p, q| p.mul(q).map_err(|e| e.to_string()), |p, q| p * q, |p, q| p.checked_mul(q)),
+            ("/", |p, q| p.div(q).map_err(|e| e.to_string()), |p, q| p / q, |p, q| if q == 0 { None } else { p.checked_div(q) }),
+            ("%", |p, q| p.rem(q).map_err(|e| e.to_string()), |p, q| p % q, |p, q| if q == 0 { None } else { p.checked_rem(q) }),
+        ];
+        for (sym, engine_op, fop, iop) in ops {
+            let got = match guard(|| engine_op(a, b)) {
+                Ok(r) => r,
+                Err(_) => continue, // panics of arithmetic are C16's business (overflow in debug builds)
+            };
+            let Ok(got) = got else { continue };
+            let Some(g) = num_of(&got) else { continue };
+            rep.nontrivial += 1;
+            if involves_float {
+                let want = fop(f(x), f(y));
+                let gv = f(g);
+                let same = (want.is_nan() && gv.is_nan()) || want == gv || (matches!(got, DataType::Float(_)) && (want as f32) == (gv as f32));
+                if !same {
+                    fail(rep, vec![], format!("arithmetic with promotion: {} {sym} {} = {} but the operands converted to f64 give {want}", show(a), show(b), show(&got)));
+                }
+            } else if let (Num::I(p), Num::I(q)) = (x, y) {
+                if let Some(want) = iop(p, q) {
+                    if want.unsigned_abs() < (1u128 << 31) {
+                        let ok = match g {
+                            Num::I(v) => v == want,
+                            Num::F(v) => v == want as f64,
+                        };
+                        if !ok {
+                            // listed finding: a BIGUINT above i64::MAX is reinterpreted as a negative i64 when the other operand is signed
+                            let big_u = |d: &DataType| matches!(d, DataType::BigUInt(v) if v.0 > i64::MAX as u64);
+                            let signed = |d: &DataType| matches!(d, DataType::Int(_) | DataType::BigInt(_));
+                            let ids = if (big_u(a) && signed(b)) || (big_u(b) && signed(a)) { vec!["KF-biguint-above-i64-wraps-in-signed-arithmetic"] } else { vec![] };
+                            fail(rep, ids, format!("integer arithmetic: {} {sym} {} = {} but the exact result is {want}", show(a), show(b), show(&got)));
+                        }
+                    }
+                }
+            }
+        }
+    }
     if let (Some(x), Some(y)) = (blob_bytes(a), blob_bytes(b)) {
         rep.nontrivial += 1;
         let want = x.cmp(&y);
